@@ -1,5 +1,7 @@
 import Martian.Lemmas.Shutdown
 import Martian.Generated.Shutdown
+import Martian.Props.C07.Faults
+import Martian.Props.C07.Tunnels
 /-!
 C07 — Shutdown completes in-flight exchanges, refuses new ones and closes everything.
 
@@ -10,6 +12,13 @@ so any number of connections, any placement of `Close`, any release order of par
 
 Reading of the statement (DESIGN §7): "marked connection-close" = marked whenever shutdown was
 observable at the close decision; a response decided earlier is complete and followed by the close.
+
+Round 3: the model also covers CONNECT (blind tunnels, MITM, HTTP/2 sessions), hijacking modifiers,
+response-write failures and further callers of `Close` — see `Props/C07/Tunnels.lean` and
+`Props/C07/Faults.lean`. An exchange whose modifier hijacked the connection, or whose response write
+failed because the CLIENT went away (environment label `writeErr`), gets no complete response from the
+proxy; both are counted separately (`hijacked`, `aborted`) and are 0 on every schedule without those two
+labels (`Faults.no_fault_labels_no_faults`).
 
 Finding F07 (open): `conns.Add(1)` runs inside the spawned goroutine, so the clause "shutdown returns
 only after every accepted connection has been closed" is FALSE for the faithful model
@@ -36,20 +45,42 @@ theorem facts_shutdown_skeleton :
     Generated.Shutdown.serveSkeleton = ["p.Closing", "l.Accept", "go p.handleLoop"] := by
   decide
 
+/-- What the round-3 part of the model relies on, regenerated from `/repo` on every check:
+* the only kind of deadline the proxy ever puts on a connection is `SetDeadline` (the per-iteration idle
+  deadline `p.timeout` of `handleLoop` and of the MITM loop, configured by the application), and `handle`
+  sets none between the close decision and the response write — so the model has no move of the proxy
+  that abandons a write (`response_write_ends_only_complete`; `writeErr` is the environment's);
+* the shutdown signal is consulted exactly three times through `Closing()` (`Serve`, `handleLoop`, the close
+  decision), received from twice (`Closing` itself, `readRequest`), closed once (`Close`) and handed on
+  once, to the HTTP/2 session (`h2Stop` depends on `closing`; `tunnel`, `mitmPeek`, `mitmHandshake` have no
+  move that does);
+* `handle`: request modifier, hijack check, round trip, response modifier, hijack check, close decision,
+  write, flush — in this order; `handleLoop` leaves after `handle` on a closeable error or a hijacked session. -/
+theorem facts_shutdown_round3 :
+    Generated.Shutdown.deadlineKinds = ["SetDeadline"] ∧
+    Generated.Shutdown.closingUses = ["Closing", "Closing", "Closing", "arg:Proxy", "close", "recv", "recv"] ∧
+    Generated.Shutdown.handleOrder =
+      ["readRequest", "handleConnectRequest", "ModifyRequest", "Hijacked", "roundTrip", "ModifyResponse",
+       "Hijacked", "Closing", "Write", "Flush"] ∧
+    Generated.Shutdown.handleLoopBody = ["handle", "isCloseable", "Hijacked"] := by
+  decide
+
 /-! ### every started exchange is completed before its connection is closed -/
 
 /-- In every reachable state every handler has completed all the exchanges it started, except
 possibly the one it is in the middle of. -/
 theorem exchange_accounting {s : Sys} (hr : Reachable s) :
-    ∀ h ∈ s.hs, h.started = h.completed + (if h.pc.inExchange then 1 else 0) ∧ h.marks.length = h.completed :=
+    ∀ h ∈ s.hs, h.started = h.completed + h.hijacked + h.aborted + (if h.pc.inExchange then 1 else 0) ∧
+      h.marks.length + h.cresps = h.completed :=
   fun h hm => ⟨((reachable_good hr).hok h hm).exch, ((reachable_good hr).hok h hm).mlen⟩
 
 /-- Safety form of "receives its complete response before its connection is closed": whenever the
 handler of connection `k` closes the connection, every exchange whose request modifier had started
-has had its response written completely. -/
+has had its response written completely — except those a modifier hijacked and those whose write
+failed because the client went away. -/
 theorem started_exchange_completes {s s' : Sys} {k : Nat} {h : Handler} (hr : Reachable s)
     (hk : s.hs[k]? = some h) (hs : step s (.h k .closeConn) = some s') :
-    h.completed = h.started ∧ h.pc.inExchange = false := by
+    h.completed + h.hijacked + h.aborted = h.started ∧ h.pc.inExchange = false := by
   have ok := (reachable_good hr).hok h (List.mem_of_getElem? hk)
   simp only [step, hk] at hs
   have hpc : h.pc = .closingConn := by
@@ -61,7 +92,7 @@ theorem started_exchange_completes {s s' : Sys} {k : Nat} {h : Handler} (hr : Re
 
 /-- Once the handler is on its way out (closing, closed, done) nothing it started is unfinished. -/
 theorem closed_connection_has_no_unfinished_exchange {s : Sys} (hr : Reachable s) :
-    ∀ h ∈ s.hs, h.pc.winding = true → h.completed = h.started := by
+    ∀ h ∈ s.hs, h.pc.winding = true → h.completed + h.hijacked + h.aborted = h.started := by
   intro h hm hw
   have := ((reachable_good hr).hok h hm).exch
   cases hp : h.pc <;> simp_all [Pc.winding, Pc.inExchange]
@@ -89,20 +120,39 @@ theorem marked_response_is_followed_by_close {s : Sys} (hr : Reachable s) :
   fun h hm => ⟨((reachable_good hr).hok h hm).afterMark, ((reachable_good hr).hok h hm).sam⟩
 
 /-- Placement form, for shutdown requested inside the request modifier, during the round trip or
-inside the response modifier (any point of a started exchange before its close decision): if
-shutdown is observable in `s` while connection `k` is at such a point, then on EVERY continuation
-(any schedule) in which that exchange's response gets completely written, it is marked
-`Connection: close` — and by `marked_response_is_followed_by_close` the connection is then closed. -/
+inside the response modifier (any point of a started non-CONNECT exchange before its close decision):
+if shutdown is observable in `s` while connection `k` is at such a point, then on EVERY continuation
+(any schedule) in which a further response gets recorded on that connection, the first such response
+— this exchange's — is marked `Connection: close`; by `marked_response_is_followed_by_close` the
+connection is then closed. -/
 theorem shutdown_before_decision_marks_response {s s' : Sys} {k : Nat} {h h' : Handler} {sched : List Label}
-    (hr : Reachable s) (hc : s.closing = true) (hk : s.hs[k]? = some h) (hp : h.pc.beforeDecision = true)
-    (hrun : run s sched = some s') (hk' : s'.hs[k]? = some h') (hdone : h.completed < h'.completed) :
-    ∃ o a, h'.marks[h.completed]? = some (o, a, true) := by
-  have hm := ((reachable_good hr).hok h (List.mem_of_getElem? hk)).mlen
-  obtain ⟨h2, hk2, ht⟩ := run_track hc hk (Or.inl ⟨rfl, hm, Or.inl hp⟩) hrun
+    (hc : s.closing = true) (hk : s.hs[k]? = some h) (hp : h.pc.beforeDecision = true) (hcn : h.conn = .no)
+    (hrun : run s sched = some s') (hk' : s'.hs[k]? = some h') (hdone : h.marks.length < h'.marks.length) :
+    ∃ o a, h'.marks[h.marks.length]? = some (o, a, true) := by
+  obtain ⟨h2, hk2, ht⟩ := run_track hc hk (Or.inl ⟨rfl, hcn, Or.inl hp⟩) hrun
   rw [hk'] at hk2; cases hk2
-  rcases ht with ⟨h1, _⟩ | ⟨_, h3⟩
+  rcases ht with ⟨h1, _⟩ | ⟨_, h3⟩ | ⟨h1, _⟩
   · omega
   · exact h3
+  · omega
+
+/-- The same without assuming that a response gets recorded: on every continuation the tracked exchange
+is still in flight and bound to be marked, or its response is recorded and marked, or it was dropped —
+hijacked by a modifier or its write failed because the client went away — and the handler is closing
+the connection without ever recording another response. -/
+theorem shutdown_before_decision_outcomes {s s' : Sys} {k : Nat} {h h' : Handler} {sched : List Label}
+    (hc : s.closing = true) (hk : s.hs[k]? = some h) (hp : h.pc.beforeDecision = true) (hcn : h.conn = .no)
+    (hrun : run s sched = some s') (hk' : s'.hs[k]? = some h') :
+    (h'.marks.length = h.marks.length ∧
+      (h'.pc.beforeDecision = true ∨ h'.pc = .decided true ∨ h'.pc = .writing true)) ∨
+    (∃ o a, h'.marks[h.marks.length]? = some (o, a, true)) ∨
+    (h'.marks.length = h.marks.length ∧ h'.pc.winding = true) := by
+  obtain ⟨h2, hk2, ht⟩ := run_track hc hk (Or.inl ⟨rfl, hcn, Or.inl hp⟩) hrun
+  rw [hk'] at hk2; cases hk2
+  rcases ht with ⟨h1, _, h3⟩ | ⟨_, h3⟩ | h3
+  · exact Or.inl ⟨h1, h3⟩
+  · exact Or.inr (Or.inl h3)
+  · exact Or.inr (Or.inr h3)
 
 /-- Shutdown requested while the connection is idle or in the middle of a request head: the handler
 can close the connection at once (`closingSeen` is enabled), without any response. If instead the
@@ -212,13 +262,22 @@ theorem late_accepts_not_served {s : Sys} (hr : Reachable s) :
 /-! ### concurrent accept and shutdown never deadlock -/
 
 /-- Progress: in every reachable state in which `Close` has been called and shutdown is not yet
-complete (`Close` returned and every accepted connection's handler done), some move of the proxy
-itself is enabled — no client has to do anything, parked gates are assumed to be released
-(`reqmodEnd`/`rtEnd`/`resmodEnd`/`writeEnd` count as moves), and this holds with any number of
-connections accepted before, during and after the call. -/
+complete (`Close` returned and every accepted connection's handler done), some move is enabled that is
+either a move of the proxy itself — no client has to do anything, parked gates are assumed to be released
+(`reqmodEnd`/`rtEnd`/`resmodEnd`/`writeEnd`/`dialEnd` count as moves) — or, and only if some handler is
+waiting for a peer (open blind tunnel, first byte / TLS handshake of a MITM'd tunnel), the move of that
+peer that ends the wait. This holds with any number of connections accepted before, during and after
+the call. -/
 theorem no_deadlock {s : Sys} (hr : Reachable s) (hc : s.cpc ≠ .idle) (hnf : ¬ Final s) :
+    ∃ l, (step s l).isSome = true ∧
+      (l.internal = true ∨ (l.peerMove = true ∧ ∃ h ∈ s.hs, h.pc.peerBlocked = true)) :=
+  progress_gen hr hc hnf
+
+/-- … in particular, when no handler is waiting for a tunnel peer, a move of the proxy itself is enabled. -/
+theorem no_deadlock_without_open_tunnels {s : Sys} (hr : Reachable s) (hc : s.cpc ≠ .idle) (hnf : ¬ Final s)
+    (hnb : ∀ h ∈ s.hs, h.pc.peerBlocked = false) :
     ∃ l, l.internal = true ∧ (step s l).isSome = true :=
-  progress hr hc hnf
+  progress_internal hr hc hnf hnb
 
 /-- Every move of the proxy itself strictly decreases `measure`: there is no infinite run without
 client moves (no livelock), from ANY state. -/
@@ -226,12 +285,18 @@ theorem proxy_moves_terminate {s s' : Sys} {l : Label} (hs : step s l = some s')
     measure s' < measure s :=
   internal_step_decreases hs hi
 
-/-- Together: from every reachable state after `Close` was called, proxy moves alone reach — within
+/-- The same for the peer moves that end an open tunnel or a pending MITM handshake. -/
+theorem drain_moves_terminate {s s' : Sys} {l : Label} (hs : step s l = some s') (hi : l.drain = true) :
+    measure s' < measure s :=
+  drain_step_decreases hs hi
+
+/-- Together: from every reachable state after `Close` was called, drain moves (moves of the proxy,
+plus the moves of tunnel peers that end an open tunnel / a pending MITM handshake) reach — within
 `measure s` steps — a state in which `Close` has returned and every accepted connection is closed
-and its handler finished; and since every proxy move decreases the measure, every maximal run of
-proxy moves ends there (`no_deadlock` says it cannot stop earlier). -/
+and its handler finished; and since every drain move decreases the measure, every maximal run of
+drain moves ends there (`no_deadlock` says it cannot stop earlier). -/
 theorem shutdown_completes {s : Sys} (hr : Reachable s) (hc : s.cpc ≠ .idle) :
-    ∃ sched s', (∀ l ∈ sched, l.internal = true) ∧ sched.length ≤ measure s ∧
+    ∃ sched s', (∀ l ∈ sched, l.drain = true) ∧ sched.length ≤ measure s ∧
       run s sched = some s' ∧ Final s' := by
   generalize hn : measure s = n
   induction n using Nat.strongRecOn generalizing s with
@@ -242,9 +307,36 @@ theorem shutdown_completes {s : Sys} (hr : Reachable s) (hc : s.cpc ≠ .idle) :
       cases hs : step s l with
       | none => rw [hs] at hen; simp at hen
       | some s1 =>
-        have hlt := internal_step_decreases hs hi
+        have hlt := drain_step_decreases hs hi
         obtain ⟨sched, s', h1, h2, h3, h4⟩ :=
           ih (measure s1) (by omega) (reachable_step hr hs) (step_cpc_ne_idle hs hc) rfl
+        refine ⟨l :: sched, s', ?_, ?_, ?_, h4⟩
+        · intro x hx
+          rcases List.mem_cons.mp hx with e | e
+          · subst e; exact hi
+          · exact h1 x e
+        · simp only [List.length_cons]; omega
+        · simp [run, hs, h3]
+
+/-- The statement of the previous rounds on its domain: if no connection has a tunnel open, is about to
+open one or is inside a CONNECT exchange (`AllPlain`), moves of the PROXY ALONE complete the shutdown. -/
+theorem shutdown_completes_by_proxy_moves_alone {s : Sys} (hr : Reachable s) (hc : s.cpc ≠ .idle)
+    (hp : AllPlain s) :
+    ∃ sched s', (∀ l ∈ sched, l.internal = true) ∧ sched.length ≤ measure s ∧
+      run s sched = some s' ∧ Final s' := by
+  generalize hn : measure s = n
+  induction n using Nat.strongRecOn generalizing s with
+  | _ n ih =>
+    by_cases hf : Final s
+    · exact ⟨[], s, by simp, by simp, rfl, hf⟩
+    · obtain ⟨l, hi, hen⟩ := progress_internal hr hc hf (fun h hm => plain_not_blocked (hp h hm))
+      cases hs : step s l with
+      | none => rw [hs] at hen; simp at hen
+      | some s1 =>
+        have hlt := internal_step_decreases hs hi
+        have hp1 : AllPlain s1 := step_allPlain hp (by intro k e; subst e; simp [Label.internal] at hi) hs
+        obtain ⟨sched, s', h1, h2, h3, h4⟩ :=
+          ih (measure s1) (by omega) (reachable_step hr hs) (step_cpc_ne_idle hs hc) hp1 rfl
         refine ⟨l :: sched, s', ?_, ?_, ?_, h4⟩
         · intro x hx
           rcases List.mem_cons.mp hx with e | e
@@ -269,14 +361,19 @@ theorem round_trip_ends_only_with_origin_response {c m r : Bool} {h h' : Handler
   cases l <;> simp [hstep, hp, Pc.readable] at hs
   case rtEnd rc => exact ⟨rc, rfl, hs.symm, fun _ _ _ => by simp [hstep, hp, hs]⟩
 
-/-- While a response is being written, the only move of its handler is the completion of the write
-(the response is counted as completely written), whatever the shutdown state. -/
+/-- While a response is being written, the only move of the PROXY is the completion of the write (the
+response is counted as completely written), whatever the shutdown state; the only other way out is the
+environment label `writeErr` (the client went away, or stalled beyond the idle timeout the application
+configured). In particular the proxy has no move — no deadline of its own, no reaction to `closing` —
+that abandons a response it is writing. -/
 theorem response_write_ends_only_complete {c m r b : Bool} {h h' : Handler} {l : HL}
     (hp : h.pc = .writing b) (hs : hstep c m r h l = some h') :
-    l = .writeEnd ∧ h'.completed = h.completed + 1 ∧ h'.started = h.started ∧
+    ((l = .writeEnd ∧ h'.completed = h.completed + 1 ∧ h'.started = h.started) ∨
+     (l = .writeErr ∧ (Label.h 0 l).internal = false ∧ h'.aborted = h.aborted + 1 ∧ h'.pc = .closingConn)) ∧
       ∀ c' m' r', hstep c' m' r' h l = some h' := by
   cases l <;> simp [hstep, hp, Pc.readable] at hs
-  case writeEnd => subst hs; exact ⟨rfl, rfl, rfl, fun _ _ _ => by simp [hstep, hp]⟩
+  case writeEnd => subst hs; exact ⟨Or.inl ⟨rfl, rfl, rfl⟩, fun _ _ _ => by simp [hstep, hp]⟩
+  case writeErr => subst hs; exact ⟨Or.inr ⟨rfl, rfl, rfl, rfl⟩, fun _ _ _ => by simp [hstep, hp]⟩
 
 /-- In every state (shutdown requested or not) the return of a pending round trip is enabled and
 changes nothing but that handler's position. -/
